@@ -94,12 +94,11 @@ func (r *Reader) HasAudio() bool {
 	return r.Header[TypeFlagsOffset]&TypeFlagsAudio != 0
 }
 
-const uninitializedTimestampDelta = 0xffffffff
-
 // Writer flv Writer
 type Writer struct {
 	w              io.Writer
 	timestampDelta uint32 // 流在中间输出时的相对时间戳
+	hasDelta       bool   // timestampDelta 已由第一个 Tag 确定
 }
 
 // NewWriter .
@@ -109,8 +108,7 @@ func NewWriter(w io.Writer, typeFlags byte) (*Writer, error) {
 	}
 
 	writer := &Writer{
-		w:              w,
-		timestampDelta: uninitializedTimestampDelta,
+		w: w,
 	}
 
 	var flvHeader [FlvHeaderSize]byte
@@ -140,8 +138,9 @@ func (w *Writer) writeTagSize(tagSize uint32) error {
 // WriteFlvTag write flv tag
 func (w *Writer) WriteFlvTag(tag *Tag) error {
 	// 记录第一个Tag的时间戳
-	if w.timestampDelta == uninitializedTimestampDelta {
+	if !w.hasDelta {
 		w.timestampDelta = tag.Timestamp
+		w.hasDelta = true
 	}
 
 	if err := writeTag(w.w, tag, w.timestampDelta); err != nil {
